@@ -35,3 +35,18 @@ Theorem C19_bind_in_history : forall eqfold replfix d0 pre dn pw post,
     Some {| res_code := 0; res_entries := users d |}.
 Proof. exact bind_in_history. Qed.
 Print Assumptions C19_bind_in_history.
+
+(* binds, searches and the Users() probe never write: however many of them
+   come first - wrong guesses included - a bind is answered exactly as it would
+   have been without them (no lockout, no state a failed attempt could bend) *)
+Theorem C19_reads_change_nothing : forall eqfold replfix ops d,
+  forallb read_only ops = true -> fst (drun eqfold replfix d ops) = d.
+Proof. exact read_only_run. Qed.
+Print Assumptions C19_reads_change_nothing.
+
+Theorem C19_bind_after_reads : forall eqfold replfix d0 pre reads dn pw post,
+  forallb read_only reads = true ->
+  nth_error (snd (drun eqfold replfix d0 (pre ++ reads ++ DBind dn pw :: post))) (length pre + length reads) =
+  Some {| res_code := handle_bind (fst (drun eqfold replfix d0 pre)) dn pw; res_entries := [] |}.
+Proof. exact bind_after_reads. Qed.
+Print Assumptions C19_bind_after_reads.
